@@ -18,6 +18,7 @@ type val struct {
 	s string // string payload (raw bytes, valid UTF-8)
 	n int64
 	b bool
+	oct bool // print a non-negative number as a legacy octal literal (sloppy mode only; not part of the wire form)
 }
 
 func vStr(s string) val  { return val{k: 's', s: s} }
@@ -72,6 +73,9 @@ func (v val) js() string {
 	case 'n':
 		if v.n < 0 {
 			return "(" + strconv.FormatInt(v.n, 10) + ")"
+		}
+		if v.oct {
+			return "0" + strconv.FormatInt(v.n, 8)
 		}
 		return strconv.FormatInt(v.n, 10)
 	case 'b':
@@ -168,6 +172,10 @@ type tree struct {
 	c    call
 	cond cond
 	t, e *tree
+	// decorated scripts only (deco.go): 'V' = `gx = <leaf t>; return gx;`, 'G' = `return gx;` / `return String(gx);`
+	x     int
+	asStr bool
+	style int // how the leaf is spelt in JavaScript (not part of the wire form)
 }
 
 func (t *tree) js(ind string) string {
@@ -190,6 +198,10 @@ func (t *tree) wireToks() []string {
 		return append([]string{"C"}, t.c.wire()...)
 	case 'S':
 		return append([]string{"S"}, t.c.wire()...)
+	case 'V':
+		return append([]string{"V", strconv.Itoa(t.x)}, t.t.wireToks()...)
+	case 'G':
+		return []string{"G", strconv.Itoa(t.x), core.B01(t.asStr)}
 	}
 	out := append([]string{"I"}, t.cond.wire()...)
 	out = append(out, t.t.wireToks()...)
@@ -204,6 +216,10 @@ func (t *tree) calls() []call {
 		return nil
 	case 'C', 'S':
 		return []call{t.c}
+	case 'V':
+		return t.t.calls()
+	case 'G':
+		return nil
 	}
 	var out []call
 	c := &t.cond
